@@ -5,7 +5,7 @@ from checks.common import absorb, replay_generic
 
 EVIDENCE = dict(
     level="model_checking",
-    rule="cases = every document of four families of WordDoc.tla, enumerated exhaustively by TLC together with the items "
+    rule="cases = every document of the families of WordDoc.tla (quick: one combined TLC run, family B then with single-atom second children), enumerated exhaustively by TLC together with the items "
          "the reader contract emits: A interleavings of <= 3 (thorough 4) blocks over 11 block shapes, B one paragraph with every "
          "arrangement of <= 2 children x <= 2 atoms over the wrapper/atom alphabets, C every table <= 2x2 (thorough 3x3) with "
          "merges, a two-paragraph cell and a cell paragraph with mixed inline content plus every 2x3 table with <= 2+2 merges, "
@@ -13,7 +13,7 @@ EVIDENCE = dict(
          "nothing or a heading level (built-in style, name only in either case, outline level only; ODT: with / without "
          "default-outline-level) and whose root is based on nothing / the default style / an undefined style / a style of the "
          "chain (cycle), with the spec-computed level (nearest declaration wins), D every heading declaration x header/footer parts and nested list runs; each for DOCX and "
-         "ODT. L every list tree of <= 3 (thorough 4) items over depths 0..3 with empty items, restarts, level jumps and (ODT) item-less wrappers / continuation paragraphs, also checked in the Lists() view; H every history of 3 calls out of {Text, Markdown, MarkdownWithOptions, MarkdownWithRAGOptions x heading options x ExcludeHeaders/ExcludeFooters, Document, ModelTables} on ONE reader over documents with headings of level 1..9 (ODT ..10), each call compared with the spec's levels for a fresh reader and with a fresh reader's result. Each case is rendered by the independent writers and read through docx.Open/odt.Open and tabula.Open "
+         "ODT. O every sheet of 2..3 (thorough 4) independent styles x place (styles.xml / content.xml automatic styles) x the style used (first / middle / last declared) x heading with / without its own outline level, alone or mixed, with a cross-place parent chain; L every list tree of <= 3 (thorough 4) items over depths 0..3 with empty items, restarts, level jumps and (ODT) item-less wrappers / continuation paragraphs, also checked in the Lists() view; H every history of 3 calls out of {Text, Markdown, MarkdownWithOptions, MarkdownWithRAGOptions x heading options x ExcludeHeaders/ExcludeFooters, Document, ModelTables} on ONE reader over documents with headings of level 1..9 (ODT ..10), each call compared with the spec's levels for a fresh reader and with a fresh reader's result. Each case is rendered by the independent writers and read through docx.Open/odt.Open and tabula.Open "
          "(Text, Markdown, Document). Non-trivial = body with a table or a paragraph mixing >= 3 inline kinds; distinct by "
          "format + body. Traces = documents (a sample of the cases + larger random ones) whose observed model WordDocTrace.tla accepted.",
     assumptions=["the DOCX/ODT writers (harness/internal/wpw) are trusted; they are audited for XML well-formedness, token numbering "
@@ -40,6 +40,12 @@ NOTES = """Interpretation choices (soundness first):
   without declaration that ends at nothing / Normal is a plain paragraph.  Unconstrained (P or H of any level, but the
   text must be there and nothing may crash or hang): chains that are cyclic (invalid by ECMA-376) and chains that
   run into an undefined style before any declaration.
+* Style order and place (family O): 2..4 independent styles declared in every combination of declarations, the heading
+  using the first / a middle / the last one declared; ODT styles in styles.xml (office:styles) or among the automatic
+  styles of content.xml, parent chains across the two places.  An ODT text:h WITHOUT a text:outline-level of its own:
+  ODF 1.2 puts it at level 1, readers commonly use the default-outline-level of the heading's own style - both are
+  accepted when that style declares one (alt level), any level when it does not; it is always a heading.
+  An ODT text:h WITH its own level keeps it whatever the styles say (conflicting styles are generated now).
 * Style sheets (ODT): a text:h's own text:outline-level decides (ODF 1.2 part 1, 5.1.2); the sheet's styles that
   carry a default-outline-level agree with it (no conflicting documents are generated); cyclic / dangling parent
   chains are unconstrained.  text:p is never asserted to become a heading through its style.
@@ -111,12 +117,13 @@ def run(ctx):
     neg = ctx.tlc("DocxOrderImplMC", "DocxOrderImpl_blind.cfg", workers=1, expect_violation=True)
     ctx.extra["docx_order_impl_refuted"] = neg["violated"]
     # R1 + R2: invariants checked and cases emitted in the same exhaustive runs
-    cfgs = ["WordDoc_A_quick.cfg", "WordDoc_B_quick.cfg", "WordDoc_C_quick.cfg", "WordDoc_D.cfg", "WordDoc_S.cfg", "WordDoc_L_quick.cfg"] if q else \
+    # quick: all families with their quick bounds in ONE TLC run (WordDoc_Q.cfg = A<=3, B 2x2, C 2x2 + wide, D, S<=4, L<=3, O<=3)
+    cfgs = ["WordDoc_Q.cfg"] if q else \
            ["WordDoc_A_thorough.cfg", "WordDoc_B_quick.cfg", "WordDoc_B_thorough.cfg", "WordDoc_B_thorough2.cfg",
-            "WordDoc_C_thorough.cfg", "WordDoc_D.cfg", "WordDoc_S.cfg", "WordDoc_L_thorough.cfg"]
+            "WordDoc_C_thorough.cfg", "WordDoc_D.cfg", "WordDoc_S.cfg", "WordDoc_L_thorough.cfg", "WordDoc_O_thorough.cfg"]
     cases, seen = [], set()
     for cfg in cfgs:
-        gen = ctx.tlc("WordDocMC", cfg, workers=4 if q else 8, collect=True, timeout=3000)
+        gen = ctx.tlc("WordDocMC", cfg, workers=8, collect=True, timeout=3000)
         if not gen["cases"]:
             raise vlib.MachineryError("TLC emitted no cases for %s" % cfg)
         ctx.extra["cases_" + cfg.replace("WordDoc_", "").replace(".cfg", "")] = len(gen["cases"])
@@ -153,8 +160,11 @@ def run(ctx):
         if seg:
             events[seg[0]["fmt"]] += seg
     ctx.extra["trace_events"] = {k: len(v) for k, v in events.items()}
-    for f in ("docx", "odt"):
-        _trace(ctx, events[f], f)
+    if q:       # one validation run for both formats
+        _trace(ctx, events["docx"] + events["odt"], "docx+odt")
+    else:
+        for f in ("docx", "odt"):
+            _trace(ctx, events[f], f)
     _histories(ctx, q)
 
 
